@@ -110,7 +110,7 @@ structure St where
 inductive Out
   | emit (cid : Nat) (v6 : Bool) (data : Bytes) (dest : Dest)               -- transport_ipvX.sendto(data, dest)
   | tunnel (cid : Nat) (hopIp : Bytes) (hopPort : Nat) (data : Bytes) (src : Dest)   -- overlay.send_data(hop, cid, null, src, data)
-  | resolve (cid : Nat) (host : Bytes) (port : Nat)                         -- getaddrinfo started
+  | resolve (cid : Nat) (host : Bytes) (port : Nat) (data : Bytes)          -- getaddrinfo started for this packet
   | loc (cid : Nat) (how : Nat)                                             -- data for an own circuit: 0 own overlay, 1 other overlay, 2 raw
   deriving Repr, DecidableEq
 
@@ -156,7 +156,7 @@ def condSock (e : Env) (s : Sock) : Cond → Bool
 def actSock (e : Env) (s : Sock) : Act → Sock × List Out
   | .queueAppend => ({ s with queue := pushBounded s.queue (e.data, e.dest) }, [])
   | .transportSend => (s, [.emit s.cid (e.dest.kind = .v6) e.data e.dest])
-  | .startResolve => ({ s with pending := s.pending ++ [(e.data, e.dest)] }, [.resolve s.cid e.dest.host e.dest.port])
+  | .startResolve => ({ s with pending := s.pending ++ [(e.data, e.dest)] }, [.resolve s.cid e.dest.host e.dest.port e.data])
   | .tunnelData => (s, [.tunnel s.cid s.hopIp s.hopPort e.data e.dest])
   | _ => (s, [])
 
@@ -227,12 +227,6 @@ def setSock : List Sock → Sock → List Sock
   | [], _ => []
   | x :: xs, s => if x.cid == s.cid then s :: xs else x :: setSock xs s
 
-/-- the branch of `on_data` for a circuit this node originated (l.983-1000): where the payload is handed to -/
-def localKind (pfx : Bytes) (c : Circ) (payload : Bytes) : Nat :=
-  if Gen.could_be_ipv8 payload == some true && !c.e2e then
-    (if pfx == payload.take 22 then 0 else 1)
-  else 2
-
 /-- hand the event to the exit socket registered under `cid` (dropped when there is none) -/
 def viaSock (st : St) (cid : Nat) (ev : Ev) : St × List Out :=
   match st.socks.find? (fun s => s.cid == cid) with
@@ -295,20 +289,25 @@ def condOnData (e : DEnv) (st : St) : Cond → Bool
     | some c => c.hopIp == e.srcIp && c.hopPort == e.srcPort
     | none => false
   | .destIsNull => e.dest.isNull
+  | .ipv8Payload => Gen.could_be_ipv8 e.payload == some true
+  | .e2eCircuit =>
+    match st.circs.find? (fun c => c.cid == e.cid) with
+    | some c => c.e2e
+    | none => false
+  | .ownPrefix => st.pfx == e.payload.take 22
+  | .nestedData => e.payload[22]? == some (UInt8.ofNat Gen.DATA_MSG_ID)
+  | .tunnelEndpoint => st.tunnelEp
   | _ => false
 
-/-- the own-circuit branch (hand-modelled): where the payload is handed to; a packet for another overlay goes to the
-    TunnelEndpoint's listeners, or is dropped when there is none -/
-def localDeliver (e : DEnv) (st : St) : List Out :=
-  match st.circs.find? (fun c => c.cid == e.cid) with
-  | some c =>
-    let k := localKind st.pfx c e.payload
-    if k == 1 && !st.tunnelEp then [] else [.loc e.cid k]
-  | none => []
-
+/-- `deliverOwn` hands the payload to `on_packet_from_circuit`, which re-dispatches by `data[22]` through
+    `decode_map_private`.  The only handler that leads to the exit path is `on_data` itself, registered for
+    `DataPayload.msg_id` only (both checked by the translator), so for any other message id the re-dispatch is a local
+    delivery (`loc`); `safeOnData` demands that `deliverOwn` is reached only when `nestedData` is known to be false. -/
 def actOnData (e : DEnv) (st : St) : Act → St × List Out
   | .exitData => exitData st e.srcIp e.cid e.dest e.payload
-  | .localDeliver => (st, localDeliver e st)
+  | .deliverOwn => (st, [.loc e.cid 0])
+  | .deliverOther => (st, [.loc e.cid 1])
+  | .deliverRaw => (st, [.loc e.cid 2])
   | _ => (st, [])
 
 def interpOnData (e : DEnv) : Prog → St → St × List Out
